@@ -114,7 +114,11 @@ def vacuity(r):
     return None
 
 
-_M = lambda cfg, **kw: dict(cfg=cfg, spec="MCDispatch.tla", **kw)
+def _M(cfg, **kw):
+    # only the n1f networks have Fake nodes in their routes
+    if "n1f" not in cfg:
+        kw["may_be_zero"] = tuple(kw.get("may_be_zero", ())) + ("AdvanceFake",)
+    return dict(cfg=cfg, spec="MCDispatch.tla", **kw)
 GROUP = dict(
     name="dispatch", bin="avh_dispatch",
     model_spec="MCDispatch.tla", trace_spec="DispatchTrace.tla", trace_cfg="DispatchTrace.cfg",
@@ -122,6 +126,8 @@ GROUP = dict(
         "quick": [_M("MCDispatch_n1_2.cfg"), _M("MCDispatch_n1_3.cfg"), _M("MCDispatch_n0_3.cfg", may_be_zero=("Reroute",)),
                   _M("MCDispatch_n2_2.cfg"), _M("MCDispatch_nl_3.cfg", may_be_zero=("Reroute",)),
                   _M("MCDispatch_live.cfg", coverage=False),
+                  # Fake marker nodes in the routes (the step over a Fake node at a blockage, F-C05-3)
+                  _M("MCDispatch_n1f_2.cfg", coverage=False), _M("MCDispatch_n1f_3.cfg"),
                   dict(cfg="MCDispatchScen_2.cfg", spec="MCDispatchScen.tla", emit=True, max_emit=110, coverage=False),
                   # three trains on plain sidings, every direction word and tie / sub-headway gap (finishing order != index order)
                   dict(cfg="MCDispatchScen_3s.cfg", spec="MCDispatchScen.tla", emit=True, max_emit=140, coverage=False)],
@@ -131,9 +137,10 @@ GROUP = dict(
                      _M("MCDispatch_n1_4.cfg", workers=16, timeout=1800),
                      _M("MCDispatch_nl_3.cfg", may_be_zero=("Reroute",)), _M("MCDispatch_nl_live.cfg", coverage=False),
                      _M("MCDispatch_live.cfg", coverage=False), _M("MCDispatch_live3.cfg", coverage=False, timeout=1800),
+                     _M("MCDispatch_n1f_2.cfg", coverage=False), _M("MCDispatch_n1f_3.cfg"),
                      dict(cfg="MCDispatchScen_3.cfg", spec="MCDispatchScen.tla", emit=True, max_emit=1000, workers=8, coverage=False, timeout=1800)],
     },
-    gen_n={"quick": 70, "thorough": 600},
+    gen_n={"quick": 130, "thorough": 1000},
     per_case_ms=60000,
     harness_timeout={"quick": 600, "thorough": 3600},
     trace_timeout={"quick": 600, "thorough": 3600},
@@ -143,7 +150,10 @@ GROUP = dict(
           "corridors with 0-3 sidings (tracks with equal or different speed limits, primary often the slower), 1-2 link mains of "
           "3-30 km, metre-precise link lengths incl. links 0-15 m longer than a train, lockout foul links, two-branch junctions "
           "at either end (one or two origin / destination links per train), diamond crossings with long mutually exclusive "
-          "crossing links, grades, 1-7 trains of 15-150 cars with maximum speeds 5-20 m/s; each goes through make_est_times "
+          "crossing links, grades, 1-7 trains of 15-150 cars with maximum speeds 5-20 m/s; composite networks in a general "
+          "graph form (9 in 20): a yard-lead origin link mutually exclusive with a crossing link of another line, two branches "
+          "converging on a link shorter than the trains followed by a crossing and sidings with locked switch links, convoys "
+          "of 3-4 closely following trains over 2-3 sidings; each goes through make_est_times "
           "and run_dispatch with the observer hook; distinct = distinct descriptors; non-trivial = >= 2 trains or an "
           "alternative route"),
     props={
@@ -154,8 +164,8 @@ GROUP = dict(
                                  "(the code applies spacing only then); headway = the dispatcher's time_spacing (8 min)",
                                  "a train longer than the rest of its route (destination link shorter than the train) holds its links "
                                  "until it leaves the network: the planner treats it as gone when its path ends (observation F-C04-2)",
-                                 "scenario family: corridors, sidings, lockout foul links, two-branch junctions, diamond crossings; Y "
-                                 "junctions in the middle of a route with several O/D links are not generated"]),
+                                 "scenario family: corridors, sidings, lockout foul links, two-branch junctions, diamond crossings, "
+                                 "and three composite families (yard lead, converging junction + crossing, convoy)"]),
         "C05": dict(invariants=["RouteValid", "Complete", "HaveFinalSnapshot", "ResultIsFinalPlan", "AllTimed", "AllCommitted",
                                 "FreeRun", "PlanIsWalk", "ErrNamesTrains", "NoPanic", "FinalAllTimed", "MonotonePlan"],
                     assumptions=["memory safety is observed, not proved: the harness build has debug assertions, overflow checks and "
@@ -176,7 +186,8 @@ GROUP = dict(
                   dict(cfg="MCDispatch_fault_lead.cfg", expect=["Fifo", "Headway"]),
                   dict(cfg="MCDispatch_fault_quiet.cfg", expect=["Fifo", "Headway", "OppExclusive"]),
                   dict(cfg="MCDispatch_fault_spacing.cfg", expect=["Headway"]),
-                  dict(cfg="MCDispatch_fault_exitce.cfg", expect=["AuthAgrees", "Progress", "temporal"])],
+                  dict(cfg="MCDispatch_fault_exitce.cfg", expect=["AuthAgrees", "Progress", "temporal"]),
+                  dict(cfg="MCDispatch_fault_faketime.cfg", expect=["TimedPrefix"])],
     selftest_cases=25,
     corrupt={"shift_plan_earlier": lambda ev: _shift(ev), "drop_train": lambda ev: _drop(ev),
              "break_backlink": lambda ev: _backlink(ev)},
@@ -184,9 +195,10 @@ GROUP = dict(
     drift_report=lambda r: (f"{r['stats'].get('tau_drift', 0)} of {r['stats'].get('tau_checked', 0)} node times differ from the gate "
                             f"formula of Dispatch!Advance; {r['stats'].get('auth_disagree', 0)} snapshots whose authority table "
                             f"disagrees with the plans; {r['stats'].get('committed_unstable', 0)} with changed committed nodes; "
+                            f"{r['stats'].get('untimed_prefix', 0)} with an untimed node below a free index (Dispatch!TimedPrefix); "
                             f"{r['stats'].get('not_walk', 0)} whose path is not a walk of the est-time net; "
                             f"{r['stats'].get('blocked_disagree', 0)} whose blocked table disagrees with the authorities")
-    if any(r["stats"].get(k, 0) for k in ("tau_drift", "auth_disagree", "committed_unstable", "not_walk", "blocked_disagree")) else None,
+    if any(r["stats"].get(k, 0) for k in ("tau_drift", "auth_disagree", "committed_unstable", "untimed_prefix", "not_walk", "blocked_disagree")) else None,
 )
 
 ENGINE = dict(name="Dispatch", path="specs/Dispatch.tla", serves_properties=["C04", "C05", "C15"],
